@@ -516,3 +516,58 @@ func SpecialXPoints() (pts []Point, names []string) {
 	}
 	return
 }
+
+// WordBoundaryXPoints returns curve points (both signs of y) whose affine x lies right at the places where a word-wise
+// range check or conversion changes behaviour: p - 2^(64i) +- j and 2^(64i) +- j for i = 0..3 (the two nearest x on
+// either side that are on the curve), and x whose low 32 / 64 bits are all ones. All are canonical (x < p).
+func WordBoundaryXPoints() (pts []Point, names []string) {
+	exp := new(big.Int).Add(P, big.NewInt(1))
+	exp.Rsh(exp, 2)
+	try := func(X *big.Int, name string) bool {
+		if X.Sign() < 0 || X.Cmp(P) >= 0 {
+			return false
+		}
+		rhs := new(big.Int).Mul(X, X)
+		rhs.Mul(rhs, X)
+		rhs.Add(rhs, new(big.Int).Mul(A, X))
+		rhs.Add(rhs, B)
+		rhs.Mod(rhs, P)
+		y := new(big.Int).Exp(rhs, exp, P)
+		if new(big.Int).Exp(y, big.NewInt(2), P).Cmp(rhs) != 0 || !OnCurve(X, y) {
+			return false
+		}
+		pts = append(pts, Point{X: new(big.Int).Set(X), Y: y}, Point{X: new(big.Int).Set(X), Y: new(big.Int).Sub(P, y)})
+		names = append(names, name+":+y", name+":-y")
+		return true
+	}
+	near := func(base *big.Int, name string, step *big.Int) {
+		for _, dir := range []int64{1, -1} {
+			found := 0
+			for j := int64(0); j < 400 && found < 2; j++ {
+				if j == 0 && dir == -1 {
+					continue
+				}
+				X := new(big.Int).Add(base, new(big.Int).Mul(step, big.NewInt(j*dir)))
+				if try(X, name+map[int64]string{1: "+", -1: "-"}[dir]+itoa(int(j))) {
+					found++
+				}
+			}
+		}
+	}
+	one := big.NewInt(1)
+	for i := uint(0); i < 4; i++ {
+		w := new(big.Int).Lsh(one, 64*i)
+		near(new(big.Int).Sub(P, w), "x=p-2^"+itoa(int(64*i)), one)
+		if i > 0 {
+			near(w, "x=2^"+itoa(int(64*i)), one)
+		}
+	}
+	// low 32 / 64 bits all ones: step by 2^32 resp. 2^64 from a fixed middle value
+	mid, _ := new(big.Int).SetString("6b17d1f2e12c4247f8bce6e563a440f277037d812deb33a0f4a13945d898c296", 16)
+	for _, bitsN := range []uint{32, 64} {
+		m := new(big.Int).Lsh(one, bitsN)
+		base := new(big.Int).Or(mid, new(big.Int).Sub(m, one))
+		near(base, "x-low"+itoa(int(bitsN))+"-ones", m)
+	}
+	return
+}
